@@ -1,6 +1,7 @@
 import Nsq.Gen.WireStack
-/-! Which tree the source is, as far as `SetOutputBuffer` is concerned (definitions only: imported by
-the driver `drv_e1`, which must follow the regenerated tree; the facts are in `Nsq.Tie.WireStack`). -/
+import Nsq.Model.WireStack
+/-! Which tree the source is, as far as `SetOutputBuffer` and `c.flateWriter` are concerned (definitions only:
+imported by the driver `drv_e1`, which must follow the regenerated tree; the facts are in `Nsq.Tie.WireStack`). -/
 namespace Nsq.Tie.WireStack
 open Nsq.Gen.WireStack
 
@@ -16,5 +17,28 @@ def setFixed : List String := [
 
 /-- the tree the model has to follow: `Model.WireStack.tstep treeFixed` -/
 def treeFixed : Bool := setOutputBufferWriter == setFixed
+
+/-- `UpgradeTLS` on /repo d6aa4e3 (F30): `c.flateWriter` is left alone. (The spec matches every statement that
+mentions `nil`, so a guard around one of these assignments — `if c.tlsConn == nil { c.flateWriter = nil }`, mutation
+R11-A — changes the list.) -/
+def tlsF30 : List String := [
+  "assign tlsConn := tls.Server(c.Conn, c.nsqd.tlsConfig)",
+  "if err != nil",
+  "assign c.outputDest = c.tlsConn",
+  "assign c.Writer = bufio.NewWriterSize(c.tlsConn, c.OutputBufferSize)"]
+
+/-- `UpgradeTLS` with F30b: the flate writer of an earlier IDENTIFY is dropped before the new writer is installed -/
+def tlsF30b : List String := [
+  "assign tlsConn := tls.Server(c.Conn, c.nsqd.tlsConfig)",
+  "if err != nil",
+  "assign c.flateWriter = nil",
+  "assign c.outputDest = c.tlsConn",
+  "assign c.Writer = bufio.NewWriterSize(c.tlsConn, c.OutputBufferSize)"]
+
+def clearsFlate (stmts : List String) : Bool := stmts.contains "assign c.flateWriter = nil"
+
+/-- the tree of the kinded model: `Model.WireStack.kstep tree` -/
+def tree : Nsq.Model.WireStack.Tree :=
+  ⟨treeFixed, clearsFlate upgradeSnappyWriter, clearsFlate upgradeTLSWriter⟩
 
 end Nsq.Tie.WireStack
